@@ -1,5 +1,6 @@
 -- GENERATED: axiom audit for Props/C03*.lean
 import Props.C03
+#print axioms SpyneModel.Props.C03.leafLaws03
 #print axioms SpyneModel.Props.C03.documented_any_order
 #print axioms SpyneModel.Props.C03.documented_query_string
 #print axioms SpyneModel.Props.C03.pair_order_irrelevant
